@@ -1490,6 +1490,11 @@ impl DnsOutPacket {
 
         if self.size() > MAX_MSG_ABSOLUTE {
             self.data.truncate(start_size);
+            // Forget the name offsets recorded while writing the removed record,
+            // otherwise a later name would be compressed with a pointer into
+            // bytes that no longer exist.
+            self.names
+                .retain(|_, offset| (*offset as usize) < start_size);
             self.state = PacketState::Finished;
             return false;
         }
